@@ -192,6 +192,7 @@ func runC03(seed int64, tier string, sc *Script) map[string]any {
 				}
 			}
 			depth := []int{0, 0, 0, 1, 2, 3}[rng.Intn(6)]
+			annEmptyOK := rng.Intn(2) == 0
 			filter := "none"
 			mkOpts := func() oras.ExtendedCopyGraphOptions {
 				var o oras.ExtendedCopyGraphOptions
@@ -205,7 +206,13 @@ func runC03(seed int64, tier string, sc *Script) map[string]any {
 				case strings.HasPrefix(filter, "ann:"):
 					var k int
 					fmt.Sscanf(filter, "ann:%d", &k)
-					o.FilterAnnotation("verif.k", regexp.MustCompile(fmt.Sprintf("^v%d$", k-1)))
+					if annEmptyOK {
+						// a pattern that also matches the empty string: a predecessor without the
+						// annotation is still not kept
+						o.FilterAnnotation("verif.k", regexp.MustCompile(fmt.Sprintf("^(v%d)?$", k-1)))
+					} else {
+						o.FilterAnnotation("verif.k", regexp.MustCompile(fmt.Sprintf("^v%d$", k-1)))
+					}
 				}
 				return o
 			}
